@@ -115,6 +115,10 @@ def near_duplicate_families(n):
         [('op', '-', (a,)), ('op', '-', (b,)), ('op', 'parity', (a,)), ('op', '-', (('op', '<<', (a, K)),))],
         [a, ('id', 'a', n) if False else ('id', 'aa', n), b, K, K1],
     ]
+    # mirrored operands of every operation whose argument order matters (equal multisets of children, different terms)
+    for o in [x for x in G.BINARY if x not in G.ASSOC]:
+        fams.append([('op', o, (a, b)), ('op', o, (b, a)), ('op', o, (a, a))])
+    fams.append([('cond', c, a, b), ('cond', c, b, a), ('cond', a, c, b), ('cond', b, a, c)])
     if n >= 8:
         p, q = ('id', 'p', 32), ('id', 'q', 32)
         fams.append([('mem', p, n), ('mem', q, n), ('mem', ('op', '+', (p, ('int', 0, 32))), n), ('mem', ('op', '+', (p, ('int', 1, 32))), n)])
